@@ -390,3 +390,20 @@ Proof.
   intros Hnd r.
   exact (every_function_once (py_formatter unit (Some u)) E (mkOpts z false false true) st Hnd eq_refl).
 Qed.
+
+Theorem print_stats_every_function_once (ls : linestats) ou o E :
+  NoDup (map fst (ls_timings ls)) -> o_details o = true ->
+  let r := print_stats_report ls ou o E in
+  NoDup (map b_key (rp_blocks r))
+  /\ (forall k tm, In (k, tm) (ls_timings ls) ->
+        (In k (map b_key (rp_blocks r)) <-> (o_stripzeros o = false \/ total_hits tm <> 0)))
+  /\ (forall b, In b (rp_blocks r) ->
+        exists tm, In (b_key b, tm) (ls_timings ls)
+                   /\ show_func (py_formatter (ls_unit ls) ou) E (o_stripzeros o) (b_key b) tm = Some b)
+  /\ (o_summarize o = true -> map fst (rp_summary r) = map b_key (rp_blocks r)).
+Proof.
+  intros Hnd Hd r.
+  destruct (every_function_once (py_formatter (ls_unit ls) ou) E o (ls_timings ls) Hnd Hd) as [H1 [H2 H3]].
+  split; [exact H1|]. split; [exact H2|]. split; [exact H3|].
+  intros Hs. apply summary_matches_details; assumption.
+Qed.
